@@ -952,6 +952,11 @@ type c10RPCtx struct {
 }
 
 func c10RingPacking(ctx *core.RunCtx, g *core.Xoshiro) *c10World {
+	return c10RingPackingWorld(ctx, g, c10RPContext(ctx))
+}
+
+// c10RPContext: ring-packing keys over the rings of degree 2^5..2^7 and sample ciphertexts (worker cache).
+func c10RPContext(ctx *core.RunCtx) *c10RPCtx {
 	variant := ctx.Ch.Draw("ringpacking-variant", 2) // number of auxiliary primes - 1
 	c := ctx.Cached(fmt.Sprintf("c10/ringpacking/%d", variant), func(*core.Xoshiro) any {
 		lit := rlwe.ParametersLiteral{LogN: 7, LogQ: []int{50, 40}, LogP: []int{50, 50}[:1+variant], NTTFlag: true}
@@ -1006,6 +1011,10 @@ func c10RingPacking(ctx *core.RunCtx, g *core.Xoshiro) *c10World {
 	if !ok {
 		ctx.Harness("ring packing context: %v", c)
 	}
+	return cc
+}
+
+func c10RingPackingWorld(ctx *core.RunCtx, g *core.Xoshiro, cc *c10RPCtx) *c10World {
 	ev := func(x any) *rlwe.RingPackingEvaluator { return x.(*rlwe.RingPackingEvaluator) }
 	hct := func(ct *rlwe.Ciphertext) uint64 {
 		return canonHashCt(*cc.evk.Parameters[ct.LogN()].GetRLWEParameters(), ct)
